@@ -568,8 +568,71 @@ func operandIndices(v ssa.Value) (idx map[int]bool, whole bool) {
 	return
 }
 
+// positionalMap: h(in, f) returns a new slice of len(in) whose element i is f(in[i]) (a generic map helper): positions
+// are kept, so element k of the result stands for operand k.
+func positionalMap(h *ssa.Function) bool {
+	if h == nil || h.Blocks == nil || len(h.Params) != 2 {
+		return false
+	}
+	in := ssa.Value(h.Params[0])
+	if _, isSl := in.Type().Underlying().(*types.Slice); !isSl {
+		return false
+	}
+	var out *ssa.MakeSlice
+	okLen := false
+	eng.Instrs(h, false, func(i ssa.Instruction) {
+		if mk, ok := i.(*ssa.MakeSlice); ok {
+			out = mk
+			if call, ok := mk.Len.(*ssa.Call); ok {
+				if bi, ok := call.Call.Value.(*ssa.Builtin); ok && bi.Name() == "len" && call.Call.Args[0] == in {
+					okLen = true
+				}
+			}
+		}
+	})
+	if out == nil || !okLen {
+		return false
+	}
+	stores, okStores := 0, true
+	eng.Instrs(h, false, func(i ssa.Instruction) {
+		st, ok := i.(*ssa.Store)
+		if !ok {
+			return
+		}
+		dst, ok := st.Addr.(*ssa.IndexAddr)
+		if !ok || dst.X != ssa.Value(out) {
+			return
+		}
+		stores++
+		same := false
+		for w := range eng.Slice(st.Val, func(*ssa.Call) bool { return true }) {
+			if src, ok := w.(*ssa.IndexAddr); ok && src.X == in && src.Index == dst.Index {
+				same = true
+			}
+		}
+		if !same {
+			okStores = false
+		}
+	})
+	if stores != 1 || !okStores {
+		return false
+	}
+	for _, r := range eng.Returns(h) {
+		if len(r.Results) != 1 || r.Results[0] != ssa.Value(out) {
+			return false
+		}
+	}
+	return true
+}
+
 func isOperands(v ssa.Value) bool {
 	v = eng.Unwrap(v)
+	// the operands mapped one by one by a helper that keeps positions (mapSlice(op.Operands, toFloatOrZero))
+	if call, ok := v.(*ssa.Call); ok {
+		if h := eng.StaticCallee(call); h != nil && eng.InModule(h) && len(call.Call.Args) == 2 && positionalMap(h) {
+			return isOperands(call.Call.Args[0])
+		}
+	}
 	// the operand list handed to a helper or table handler as a parameter
 	if par, ok := v.(*ssa.Parameter); ok {
 		if sl, ok := par.Type().Underlying().(*types.Slice); ok && strings.HasSuffix(eng.TypeName(sl.Elem()), "core.Object") {
@@ -906,6 +969,17 @@ func checkIndexedCopy(c *eng.Ctx, R string, fn *ssa.Function, name string) {
 			okAll = false
 		}
 	})
+	if !found {
+		// copy(m[:], <the operands mapped one by one>) keeps positions too
+		for _, ci := range eng.Calls(fn, false, func(n string, _ ssa.CallInstruction) bool { return n == "builtin:copy" }) {
+			args := ci.Common().Args
+			if len(args) == 2 && isOperands(args[1]) {
+				if sl, ok := args[0].(*ssa.Slice); ok && sl.Low == nil {
+					found = true
+				}
+			}
+		}
+	}
 	if !found {
 		c.Undec(R, name, fn.Pos(), "no indexed float store found")
 		return
